@@ -98,3 +98,88 @@ def scramble_shallow(o, depth=0):
             scramble_shallow(v, depth + 1)
         elif hasattr(v, "__dict__") and not isinstance(v, (enum.Enum, type)) and not callable(v):
             scramble_shallow(v, depth + 1)
+
+
+# ----------------------------------------------------------------------------------------------
+# long call histories of stateless codecs
+# ----------------------------------------------------------------------------------------------
+def hidden_state(*owners):
+    """digest of the data (not code) held at class / module level by the given classes and modules"""
+    import types
+    from . import canon as _canon
+
+    items = {}
+    for o in owners:
+        for k, v in sorted(vars(o).items()):
+            if k.startswith("__"):
+                continue
+            if isinstance(v, (staticmethod, classmethod, property, type, types.ModuleType, types.FunctionType, types.BuiltinFunctionType)) or callable(v):
+                continue
+            try:
+                items[f"{getattr(o, '__name__', o)}.{k}"] = _canon.digest(v)
+            except Exception:  # noqa: BLE001
+                items[f"{getattr(o, '__name__', o)}.{k}"] = repr(type(v))
+    return items
+
+
+LONG_N = (1 << 16) + 256  # crosses every 8- and 16-bit boundary a per-call counter or index could have
+
+
+def long_history(s, owners, thunks, always, deadline_s=240.0, n=LONG_N):
+    """`thunks`: list of (label, callable) -- each callable performs one valid library call on fixed input and returns a hashable /
+    comparable observation.  Calling them must not change what a later call returns, however many calls came before.
+
+    A stateless codec has the same class/module-level data after a call as before it.  When that is observed to hold (and `always`
+    is false) the history is explored to depth 3 only; when a call is seen to leave a trace in class/module data -- or `always`
+    (thorough tier) -- every thunk is called LONG_N times in this one process.  Only a different observation or an exception on
+    the valid input is a violation: the trace by itself is not."""
+    import time
+    from .report import exc_sig
+
+    t0 = time.perf_counter()
+    want = {}
+    for lab, f in thunks:
+        try:
+            want[lab] = f()
+        except Exception as e:  # noqa: BLE001
+            s.violation(f"long_history:exception_on_first_call:{lab}:" + exc_sig(e), {"call": lab}, repr(e))
+            return
+    before = hidden_state(*owners)
+    for lab, f in thunks:
+        for _ in range(2):
+            try:
+                if f() != want[lab]:
+                    s.violation(f"long_history:result_changes_with_call_count:{lab}", {"call": lab, "calls_before": 1})
+            except Exception as e:  # noqa: BLE001
+                s.violation(f"long_history:exception_after_earlier_calls:{lab}:" + exc_sig(e), {"call": lab, "calls_before": 1}, repr(e))
+            s.case(nontrivial=True, calls=1, outcome="short")
+    after = hidden_state(*owners)
+    changed = sorted(k for k in set(before) | set(after) if before.get(k) != after.get(k))
+    s.extra["class_or_module_data_changed_by_a_call"] = changed
+    deep = always or bool(changed)
+    s.extra["long_history_calls_per_entry_point"] = n if deep else 3
+    if not deep:
+        return
+    capped = False
+    for lab, f in thunks:
+        bad = False
+        for i in range(3, n):
+            try:
+                r = f()
+                if r != want[lab]:
+                    s.violation(f"long_history:result_changes_with_call_count:{lab}", {"call": lab, "calls_before": i},
+                                f"call number {i + 1} of {lab} in one process returns something else than the first call on the same input")
+                    bad = True
+            except Exception as e:  # noqa: BLE001
+                s.violation(f"long_history:exception_after_earlier_calls:{lab}:" + exc_sig(e), {"call": lab, "calls_before": i},
+                            f"call number {i + 1} of {lab} in one process raises on valid input: {e!r}")
+                bad = True
+            s.case(nontrivial=(i & (i - 1)) == 0 or (i & 0xFF) in (0, 0xFF), calls=1, outcome=("pow2" if (i & (i - 1)) == 0 else "long"))
+            if bad:
+                break
+            if (i & 0x3FF) == 0 and time.perf_counter() - t0 > deadline_s:
+                capped = True
+                s.extra.setdefault("long_history_capped_at", {})[lab] = i
+                break
+    if capped:
+        s.exhaustive = False
